@@ -22,7 +22,7 @@ Oracle (exactly the statement): the element arrives verbatim -- for pos / file /
 (`any(element in entry)`).  Nothing else about the argv is asserted (order, flags, neighbours are C22's subject).
 The statement says "whatever characters it contains": a task that refuses the value is a violation as well.
 
-Signatures (naming only): a violating case is named `built-string-retokenised:<class>` iff the observation is exactly
+Signatures (naming only): a violating case is named `built-string-retokenised-<class>` iff the observation is exactly
 what re-splitting the concatenated command text with shlex (plus split_cmd's removal of one pair of enclosing quotes)
 predicts -- including the predicted "No closing quotation" / "No escaped character" error; <class> is
 `quote-or-backslash` if s contains ' " or \\, else `whitespace`.  Anything else is unclassified (None).
@@ -52,10 +52,10 @@ def signature(pl, s, value, o):
     observed = o["proc"] if o["proc"] is not None else o["seam"]
     if kind == "error":
         if observed is None and o["err"] and o["err"].startswith("ValueError") and pred in o["err"]:
-            return "built-string-retokenised:" + cls
+            return "built-string-retokenised-" + cls
         return None
     if observed is not None and observed == pred:
-        return "built-string-retokenised:" + cls
+        return "built-string-retokenised-" + cls
     return None
 
 
